@@ -338,6 +338,8 @@ def run_child(rec: dict, deep_each_op: bool = False) -> dict:
         except Exception as e:  # noqa: BLE001
             obj_diff = [j, f"snapshot raised {type(e).__name__}: {e}"]
             break
+        private_then, private_now = snap0.pop("private_attr_names", []), now.pop("private_attr_names", [])
+        obj_additions += private_then != private_now
         d, a = state.preserved(snap0, now)
         obj_additions += a
         if d:
